@@ -370,6 +370,18 @@ class ExprMixin:
             import operator
 
             return {"Lt": operator.lt, "LtE": operator.le, "Gt": operator.gt, "GtE": operator.ge}[op](a, b)
+        def unopt(x):
+            if isinstance(x, SV) and isinstance(x.ty, TOpt):
+                self.oblige("attr", x.ty.is_some(x), node, "ordering comparison with None")
+                self.assume(x.ty.is_some(x))
+                return x.ty.val(x)
+            return x
+
+        a, b = unopt(a), unopt(b)
+        if not isinstance(a, SV) and not isinstance(b, SV):
+            import operator
+
+            return {"Lt": operator.lt, "LtE": operator.le, "Gt": operator.gt, "GtE": operator.ge}[op](a, b)
         a2 = a if isinstance(a, SV) else lift(a, b.ty if b.ty in (TInt, TReal) else None)
         if op == "Lt":
             return a2 < b
@@ -493,6 +505,12 @@ class ExprMixin:
             return x in container
         if isinstance(container, (str, bytes)):
             container = lift(container)
+        if isinstance(container, SV) and isinstance(container.ty, TRec) and getattr(container.ty, "dictlike", False) and isinstance(x, str):
+            if x not in container.ty.fields:
+                self.res.drops.add(f"key {x!r} of {container.ty.name} is not modelled: treated as absent")
+                return False
+            v = container.ty.get(container, x)
+            return v.ty.is_some(v)
         if isinstance(container, SV):
             if isinstance(container.ty, TOpt):
                 raise Unsupported("'in' on optional")
@@ -533,6 +551,8 @@ class ExprMixin:
                 if isinstance(inner, bool):
                     return some if inner else False
                 return some & inner
+            if isinstance(ty, TRec) and getattr(ty, "dictlike", False):
+                return True  # dicts modelled this way (stat results, decoded rows) are never empty
             if isinstance(ty, (TRec, TRef)):
                 m = self.find_method_for_type(ty, "__bool__") or self.find_method_for_type(ty, "__len__")
                 if m is None:
@@ -615,10 +635,19 @@ class ExprMixin:
                 if not self.branch(ok):
                     raise RaiseEx("IndexError", None, node)
                 return obj[pos]
+            if isinstance(ty, TRec) and getattr(ty, "dictlike", False) and isinstance(idx, str):
+                if idx not in ty.fields:
+                    raise Unsupported(f"key {idx!r} of dict-like {ty.name} is not modelled")
+                v = ty.get(obj, idx)
+                if not self.branch(v.ty.is_some(v)):
+                    raise RaiseEx("KeyError", None, node)
+                return v.ty.val(v)
             if isinstance(ty, (TRec, TRef)):
                 m = self.find_method_for_type(ty, "__getitem__")
                 if m:
                     return self.call_function(m[0], [obj, idx], {}, node, cls=m[1])
+                if isinstance(ty, TRef):
+                    return self.call_extern(f"ext:{ty.cls}.__getitem__", [obj, idx], {}, node, None)
         raise Unsupported(f"subscript of {obj!r}")
 
     # ---------------- comprehensions ----------------
@@ -752,6 +781,9 @@ class ExprMixin:
             m = self.find_method_for_type(obj.ty, "__setitem__")
             if m:
                 self.call_function(m[0], [obj, idx, v], {}, node, cls=m[1])
+                return None
+            if isinstance(obj.ty, TRef):
+                self.call_extern(f"ext:{obj.ty.cls}.__setitem__", [obj, idx, v], {}, node, None)
                 return None
         if isinstance(obj, list) and isinstance(idx, int):
             o = list(obj)
